@@ -95,7 +95,8 @@ MC_METHODS = {
     "iptag_get": (lambda r: (r.randrange(8),), ["x", "y"], "chip0"),
     "iptag_set": (lambda r: (r.randrange(8), "10.1.2.3", 50000 + r.randrange(9)),
                   ["x", "y"], "chip0"),
-    "set_led": (lambda r: (r.choice([r.randrange(4), [0, 2], (1, 3)]),
+    "set_led": (lambda r: (r.choice([r.randrange(4), [0, 2], (1, 3),
+                                     "GEN:0,3", "GEN:2"]),
                            r.choice([True, False, None])),
                 ["x", "y"], "chip0"),
     "sdram_free": (lambda r: (0x60100000,), ["x", "y"], "chip0"),
@@ -279,7 +280,10 @@ def gen_rest(cls, idx, rng, tier):
         board = sorted(rng.sample(range(8), rng.randint(2, 4)))
         rng.shuffle(board)
     return dict(kind="bmp", method=name, plan=PLANS[idx % len(PLANS)],
-                conns=conns, seed=rng.randrange(1 << 30), board=board)
+                conns=conns, seed=rng.randrange(1 << 30), board=board,
+                # "int or iterable": lists are not the only iterables
+                board_form=rng.choice(["list", "list", "gen", "iter",
+                                       "tuple"]))
 
 
 # --------------------------------------------------------------- helpers
@@ -315,7 +319,9 @@ def materialise(args, tmp, rt):
     """replace the placeholders of the method table by real objects"""
     out = []
     for a in args:
-        if a == "ENTRIES":
+        if isinstance(a, str) and a.startswith("GEN:"):
+            a = (int(v) for v in a[4:].split(","))     # one-shot iterable
+        elif a == "ENTRIES":
             a = [rt.RoutingTableEntry({rt.Routes(2)}, 0x10, 0xff),
                  rt.RoutingTableEntry({rt.Routes(9)}, 0x20, 0xff)]
         elif a == "TABLES":
@@ -790,6 +796,13 @@ def run_bmp(case, ctx):
     cab, frm = [c for c in case["conns"]][0][:2]
     board = case["board"]
     boards = list(board) if isinstance(board, list) else [board]
+    form = case.get("board_form", "list")
+    if isinstance(board, list) and form != "list":
+        ctx.hit("board_given_as_one_shot_iterable" if form != "tuple"
+                else "board_given_as_tuple")
+        board = {"gen": lambda: (b for b in boards),
+                 "iter": lambda: iter(list(boards)),
+                 "tuple": lambda: tuple(boards)}[form]()
     R = dict(cabinet=cab, frame=frm, board=board)
     decoy = dict(cabinet=cab, frame=frm, board=(boards[0] + 1) % 8)
     board1 = boards[0]
@@ -819,7 +832,8 @@ def run_bmp(case, ctx):
         kw = dict(cabinet=cab, frame=frm)
         missing = "board"
     meth = getattr(bc, name)
-    where = dict(method="bmp." + name, plan=plan_, resolved=R,
+    where = dict(method="bmp." + name, plan=plan_,
+                 resolved=dict(R, board=case["board"]), board_form=form,
                  connections=case["conns"])
 
     def go():
